@@ -8,7 +8,7 @@ PROPS : which theorems (Props/<id>.v) and which suite columns decide each proper
 SUITES = {
     "limiter": dict(
         test="TestLimiter", coq_module="Cases.LimiterCase", case_type="lim_case", eval="eval_lim_case",
-        cols=["diff", "mon_window", "mon_burst", "cls_cleanup_regrant", "nt_c09", "mon_first_burst"],
+        cols=["diff", "mon_window", "mon_burst", "cls_cleanup_regrant", "nt_c09", "mon_first_burst", "mon_idle_refill"],
         batches={"quick": 4, "thorough": 16}, timeout={"quick": 300, "thorough": 3000},
     ),
 }
@@ -91,8 +91,14 @@ SUITES["tunnel"] = dict(
 
 SUITES["probe"] = dict(
     test="TestProbe", coq_module="Cases.ProbeCase", case_type="pr_case", eval="eval_pr_case",
-    cols=["diff", "mon_c19_stop_returns", "mon_c19_no_probe_after", "nt_c19", "nt_c04", "mon_c04_probe_window"],
+    cols=["diff", "mon_c19_stop_returns", "mon_c19_no_probe_after", "nt_c19", "nt_c04", "mon_c04_probe_window", "mon_c04_probe_recover"],
     batches={"quick": 4, "thorough": 16}, timeout={"quick": 300, "thorough": 3000},
+)
+
+SUITES["stall"] = dict(
+    test="TestStall", coq_module="Cases.ProbeCase", case_type="st_case", eval="eval_st_case", needs_binary=True,
+    cols=["diff", "mon_c03_stall_ends", "mon_c03_stall_followup", "nt_c03"],
+    batches={"quick": 1, "thorough": 2}, timeout={"quick": 120, "thorough": 300},
 )
 
 SUITES["sigterm"] = dict(
@@ -116,7 +122,7 @@ SUITES["sched"] = dict(
 PROPS = {
     "C09": dict(
         props_file="Props/C09.v", gen=["LimiterGen"],
-        suites=[dict(suite="limiter", corr=["diff"], monitors=["mon_window", "mon_burst", "mon_first_burst"],
+        suites=[dict(suite="limiter", corr=["diff"], monitors=["mon_window", "mon_burst", "mon_first_burst", "mon_idle_refill"],
                      classifiers={"cleanup-regrant": "cls_cleanup_regrant"}, nontrivial="nt_c09"),
                 dict(suite="lbseq", corr=["diff_begin"], monitors=["mon_c09_gate"], classifiers={}, nontrivial="nt_c09")],
         rule="limiter histories under virtual time (corpus + seeded structured random: 1-4 clients, max 1..5, "
@@ -232,7 +238,7 @@ PROPS["C02"] = dict(
     suites=[dict(suite="lbseq", corr=["diff_begin"], monitors=["mon_c02_disp", "mon_c02_503"],
                  classifiers={}, nontrivial="nt_c02"),
             # ejection by the active checker: no traffic inside the window whatever later probes say
-            dict(suite="probe", corr=["diff"], monitors=["mon_c04_probe_window"], classifiers={}, nontrivial="nt_c04"),
+            dict(suite="probe", corr=["diff"], monitors=["mon_c04_probe_window", "mon_c04_probe_recover"], classifiers={}, nontrivial="nt_c04"),
             # no 503 while a backend is healthy throughout, no pick of a backend that is ejected throughout, under every interleaving with flips
             dict(suite="sched", corr=["diff_obs", "diff_trace"], monitors=["mon_sched_prop", "mon_sched_finished"], classifiers={},
                  nontrivial="nt_sched", filter=lambda c: c["repl"].get("scenario") == 4)],
@@ -253,7 +259,7 @@ PROPS["C04"] = dict(
     props_file="Props/C04.v", gen=["HealthGen"],
     suites=[dict(suite="lbseq", corr=["diff_begin", "diff_admin"], monitors=["mon_c04_list", "mon_c04_only_after", "mon_c04_mirror", "mon_c02_disp", "mon_c02_503"],
                  classifiers={}, nontrivial="nt_c04"),
-            dict(suite="probe", corr=["diff"], monitors=["mon_c04_probe_window"], classifiers={}, nontrivial="nt_c04"),
+            dict(suite="probe", corr=["diff"], monitors=["mon_c04_probe_window", "mon_c04_probe_recover"], classifiers={}, nontrivial="nt_c04"),
             dict(suite="sched", corr=["diff_obs", "diff_trace"], monitors=["mon_sched_prop", "mon_sched_finished"], classifiers={},
                  nontrivial="nt_sched", filter=lambda c: c["repl"].get("scenario") == 1)],
     rule="sched: every interleaving of the critical sections of 1-2 lazy-expiry checks (IsBackendHealthy) and 1-2 fresh ejections "
@@ -312,7 +318,9 @@ PROPS["C03"] = dict(
     suites=[dict(suite="lbseq", corr=["diff_begin", "diff_end"], monitors=["mon_c03_recover", "mon_c03_fault_visible"],
                  classifiers={}, nontrivial="nt_c03"),
             # backend faults as the active checker sees them (refused, wrong status, no answer): the process must survive every one
-            dict(suite="probe", corr=["diff"], monitors=["mon_c19_stop_returns"], classifiers={}, nontrivial="nt_c04")],
+            dict(suite="probe", corr=["diff"], monitors=["mon_c19_stop_returns", "mon_c04_probe_recover"], classifiers={}, nontrivial="nt_c04"),
+            # a client that stalls mid-request: the real binary must end the exchange within its read time-out
+            dict(suite="stall", corr=[], monitors=["mon_c03_stall_ends", "mon_c03_stall_followup"], classifiers={}, nontrivial="nt_c03")],
     rule="every lbseq history (faults: 5xx, transport error, abort mid-body, with breaker / limiter / passive checks on or off, all "
          "strategies, overlapping) is followed by the recovery script: end everything in flight, wait past every timer, add a fresh "
          "backend, three well-behaved requests that must be dispatched and answered 200, final metrics with zero gauges; "
